@@ -9,6 +9,12 @@ Case kinds
   bary        mapper_util.pixel_weights_delaunay_from / pix_indexes_for_sub_slim_index_delaunay_from on
               hand-made simplex tables (all vertex orders, argmin ties)
 
+Round 5/6 streams (same kinds, extra fields; tags dec_* / lay_* / opt_* / fam_* / own_* / cfg_*, see
+design_notes/C06.md): worlds scaled by 2^k and moved far from zero, near-ties inside allclose/isclose defaults,
+other memory layouts / containers of every array argument, pairwise option crossings, same-key families,
+ownership histories (scribble over everything returned / accepted, rebuild from fresh inputs, three rounds) and
+configuration histories.
+
 Qhull (scipy.spatial.Delaunay) is not modelled: `simplices`, `find_simplex`, `vertex_neighbor_vertices`
 are read from the implementation, handed to the model, and their contract is checked by the oracle with
 exact rational orientation predicates on every case.
@@ -24,7 +30,7 @@ from fractions import Fraction as F
 import numpy as np
 
 import gen
-from common import PropertyCheck, Skip, load_autoarray, mask_json, q, qlist, qmat
+from common import Cmp, PropertyCheck, Skip, load_autoarray, mask_json, q, qlist, qmat
 
 BUFFER = F(1e-8)  # the double the code uses as default `buffer`
 SLACK = F(1, 10**9)  # containment slack (relative to the cell / triangle) for the oracle
@@ -73,10 +79,21 @@ def convex_hull(pts):
     return lower[:-1] + upper[:-1]
 
 
+def int_points(pts):
+    """the same point set scaled by the common denominator: integer coordinates (orientation / in-circle signs and
+    ratios of areas are unchanged; integer arithmetic is ~10x faster than Fractions)"""
+    d = 1
+    for p in pts:
+        for v in p:
+            d = d * v.denominator // math.gcd(d, v.denominator)
+    return [(int(p[0] * d), int(p[1] * d)) for p in pts]
+
+
 def general_position(pts):
     n = len(pts)
     if len(set(pts)) < n:
         return False
+    pts = int_points([(F(a), F(b)) for a, b in pts])
     for a, b, c in itertools.combinations(range(n), 3):
         if orient(pts[a], pts[b], pts[c]) == 0:
             return False
@@ -307,6 +324,99 @@ class _Retry(Exception):
     """history generator: the pinned ingredients could not be combined (draw again)"""
 
 
+# ------------------------------------------------------------------------------------------------
+# round 5/6: layouts / containers (R5-C), configuration values (R5-D), float-aware bands (R5-A / R5-E)
+# ------------------------------------------------------------------------------------------------
+EPS = F(1, 1 << 52)  # double-precision machine epsilon
+
+
+def _lay(a, var, fill=None):
+    """the same values in another memory layout / container (R5-C); `a` is a fresh ndarray (1-D or 2-D)"""
+    if var in (None, "C", "plain"):
+        return a
+    a = np.asarray(a)
+    if var == "F":
+        return np.asfortranarray(a)
+    if var == "T":  # a transposed view of a C-ordered buffer of the transposed shape
+        return np.ascontiguousarray(a.T).T
+    if var == "strided":  # every other row (and the inner columns) of a larger buffer filled with junk
+        if fill is None:
+            fill = True if a.dtype == bool else (np.nan if a.dtype.kind == "f" else -99)
+        if a.ndim == 1:
+            big = np.full(2 * len(a) + 1, fill, dtype=a.dtype)
+            big[1::2] = a
+            return big[1::2]
+        big = np.full((2 * a.shape[0] + 1, a.shape[1] + 2), fill, dtype=a.dtype)
+        big[1::2, 1:-1] = a
+        return big[1::2, 1:-1]
+    if var == "revview":  # negative strides
+        return a[::-1].copy()[::-1]
+    if var == "readonly":
+        b = a.copy()
+        b.flags.writeable = False
+        return b
+    if var == "list":
+        return a.tolist()
+    if var == "tuple_rows":
+        return [tuple(r) for r in a.tolist()]
+    if var == "f32":
+        b = a.astype(np.float32)
+        assert np.array_equal(b.astype(float), a), "float32 variant of a value that float32 cannot hold"
+        return b
+    if var == "i32":
+        return a.astype(np.int32)
+    raise KeyError(var)
+
+
+# every configuration value that code reachable from the C06 entry points (mask / array / grid structures,
+# over-sampler, meshes, mappers, the profiling decorator) reads through `conf.instance[...]` at call time
+CONFIG_KEYS = {
+    "repeats": ("general", "profiling", "repeats"),
+    "native_only": ("general", "structures", "native_binned_only"),
+    "flip_ds9": ("general", "fits", "flip_for_ds9"),
+    "nn_max": ("general", "pixelization", "voronoi_nn_max_interpolation_neighbors"),
+    "remove_centre": ("general", "grid", "remove_projected_centre"),
+}
+CONFIG_FLIPS = {"repeats": [2, 3], "native_only": [True], "flip_ds9": [True], "nn_max": [1], "remove_centre": [True]}
+
+
+def _conf_section(name):
+    from autoconf import conf
+
+    f, s, k = CONFIG_KEYS[name]
+    return conf.instance[f][s], k
+
+
+class _ConfigGuard:
+    """remembers the first value of every configuration key that is changed and puts it back on exit (also on
+    exceptions)"""
+
+    def __init__(self):
+        self.old = {}
+
+    def set(self, name, value):
+        try:  # (a key that a later version of the library no longer has is simply not flipped)
+            sec, k = _conf_section(name)
+            if name not in self.old:
+                self.old[name] = sec[k]
+            sec[k] = value
+            return True
+        except Exception:
+            return False
+
+    def __enter__(self):
+        return self
+
+    def __exit__(self, *a):
+        for name, v in self.old.items():
+            try:
+                sec, k = _conf_section(name)
+                sec[k] = v
+            except Exception:
+                pass
+        return False
+
+
 def mask_from_bits(mj):
     return [[mj["bits"][y * mj["w"] + x] == "1" for x in range(mj["w"])] for y in range(mj["h"])]
 
@@ -329,7 +439,7 @@ class C06(PropertyCheck):
                     "(everything else is structured random generation)",
     }
     # loop ties (DESIGN §12): regenerated from the source on every run, tie theorems proved for all sizes
-    loop_tie_modules = ["LoopsMapper"]
+    loop_tie_modules = ["LoopsMapper", "LoopsDelaunay"]
     modelled_functions = [
         "autoarray/inversion/pixelization/mappers/mapper_util.py:mapping_matrix_from",
         "autoarray/inversion/pixelization/mappers/mapper_util.py:data_slim_to_pixelization_unique_from",
@@ -422,6 +532,10 @@ class C06(PropertyCheck):
         yield from self._mid_cases(rng, quick)
         # 6. reuse histories on real objects (round 4)
         yield from self._history_cases(tier, rng)
+        # 7. round 5/6: decades / near-ties (R5-A, R5-E), layouts and containers (R5-C), option crossings (R5-F),
+        #    same-key families for the runner's order-of-evaluation stream, ownership histories (R5-B),
+        #    configuration histories (R5-D)
+        yield from self._r56_cases(tier, rng)
 
     # ---- ingredients
     def _mask_subs(self, rng, max_sub_total=48):
@@ -748,59 +862,24 @@ class C06(PropertyCheck):
             return self._run_large(aa, case)
         if kind == "hist":
             return self._run_hist(aa, case)
-        if kind == "nbr":
-            from autoarray.inversion.pixelization.mesh import mesh_util
-
-            nb, sz = mesh_util.rectangular_neighbors_from(shape_native=(case["h"], case["w"]))
-            mesh = aa.Mesh2DRectangular.overlay_grid(
-                shape_native=(case["h"], case["w"]), grid=np.array([[0.0, 0.0], [1.0, 1.0]]))
-            nb2 = mesh.neighbors
-            return {"neighbors": [[int(v) for v in r] for r in nb], "neighbors_sizes": [int(v) for v in sz],
-                    "mesh.neighbors": [[int(v) for v in r] for r in np.asarray(nb2)],
-                    "mesh.neighbors.sizes": [int(v) for v in nb2.sizes]}
-        if kind == "tables":
-            from autoarray.inversion.pixelization.mappers import mapper_util
-
-            subs = np.array(case["sub_size"], dtype=int)
-            idx = np.array(case["idx"], dtype=int)
-            sizes = np.array(case["sizes"], dtype=int)
-            wts = np.array([[float(F(v)) for v in r] for r in case["wts"]], dtype=float)
-            if case.get("dtype") == "int_array":
-                wts = wts.astype(np.int64)
-            slim_for = np.array([i for i, s in enumerate(case["sub_size"]) for _ in range(s * s)], dtype=int)
-            mm = mapper_util.mapping_matrix_from(
-                pix_indexes_for_sub_slim_index=idx, pix_size_for_sub_slim_index=sizes,
-                pix_weights_for_sub_slim_index=wts, pixels=case["pixels"], total_mask_pixels=len(subs),
-                slim_index_for_sub_slim_index=slim_for, sub_fraction=1.0 / subs.astype(float) ** 2)
-            d2p, dw, pl = mapper_util.data_slim_to_pixelization_unique_from(
-                data_pixels=len(subs), pix_indexes_for_sub_slim_index=idx,
-                pix_sizes_for_sub_slim_index=sizes, pix_weights_for_sub_slim_index=wts,
-                pix_pixels=case["pixels"], sub_size=subs)
-            return {"mapping_matrix": qmat(mm),
-                    "unique": {"data_to_pix_unique": [[int(v) for v in r] for r in d2p],
-                               "data_weights": qmat(dw), "pix_lengths": [int(v) for v in pl]}}
-        if kind == "bary":
-            from autoarray.inversion.pixelization.mappers import mapper_util
-
-            dt = case.get("dtype", "float")
-            grid = self._np(case["grid"], "int_array" if dt == "int_array" else "float")
-            w = mapper_util.pixel_weights_delaunay_from(
-                source_plane_data_grid=grid,
-                source_plane_mesh_grid=self._np(case["mesh"], "float" if dt == "float" else "int_array"),
-                slim_index_for_sub_slim_index=np.zeros(len(grid), dtype=int),
-                pix_indexes_for_sub_slim_index=np.array(case["idx"], dtype=int))
-            return {"weights": qmat(w)}
-        if kind == "nearest":
-            from autoarray.inversion.pixelization.mappers import mapper_util
-
-            grid = self._np(case["grid"], case.get("dtype", "float"))
-            mp, sz = mapper_util.pix_indexes_for_sub_slim_index_delaunay_from(
-                source_plane_data_grid=grid,
-                simplex_index_for_sub_slim_index=-1 * np.ones(len(grid), dtype=int),
-                pix_indexes_for_simplex_index=np.zeros((0, 3), dtype=int),
-                delaunay_points=self._np(case["points"], case.get("dtype", "float")))
-            return {"mappings": [[int(v) for v in r] for r in mp], "sizes": [int(v) for v in sz]}
+        if kind in ("nbr", "tables", "bary", "nearest"):
+            rounds = int(case.get("rounds", 1))
+            first = None
+            for r in range(rounds):
+                keep = []
+                o = self._run_util(aa, case, keep)
+                if first is None:
+                    first = o
+                elif o != first:
+                    return o  # ownership history: a later round differs from the first (judged like any observation)
+                if r + 1 < rounds:
+                    for a in keep:  # scribble over every array the call accepted or returned
+                        self._scribble_array(a, case.get("scribble", "nan"))
+            return first
         # ---- mappers through the public API
+        if case.get("lay") or case.get("opts"):
+            mapper, over, grid = self._build_mapper_variant(aa, case)  # round 5/6: layouts / option crossings
+            return self._observe(kind, mapper, over, grid)
         m = np.array([c == "1" for c in case["mask"]["bits"]], dtype=bool).reshape(
             case["mask"]["h"], case["mask"]["w"])
         mask = aa.Mask2D(mask=m, pixel_scales=tuple(float(F(v)) for v in case["scales"]),
@@ -848,6 +927,278 @@ class C06(PropertyCheck):
                     source_plane_mesh_grid=aa.Grid2DIrregular(values=pts_in), run_time_dict=rtd)
                 mapper = aa.Mapper(mapper_grids=mg, over_sampler=over, regularization=None, run_time_dict=rtd)
         return self._observe(kind, mapper, over, grid)
+
+    def _run_util(self, aa, case, keep):
+        kind = case["kind"]
+        lay = case.get("lay") or {}
+
+        def L(a, name):
+            a = _lay(a, lay.get(name))
+            if isinstance(a, np.ndarray):
+                keep.append(a)
+            return a
+
+        def K(a):
+            keep.append(a)
+            return a
+
+        if kind == "nbr":
+            from autoarray.inversion.pixelization.mesh import mesh_util
+
+            h, w = case["h"], case["w"]
+            shp = {"tuple": (h, w), "list": [h, w], "np_ints": (np.int64(h), np.int32(w)),
+                   "array": np.array([h, w])}[case.get("shape_container", "tuple")]
+            nb, sz = mesh_util.rectangular_neighbors_from(shape_native=shp)
+            mesh = aa.Mesh2DRectangular.overlay_grid(
+                shape_native=(h, w) if isinstance(shp, np.ndarray) else shp, grid=K(np.array([[0.0, 0.0], [1.0, 1.0]])))
+            nb2 = mesh.neighbors
+            out = {"neighbors": [[int(v) for v in r] for r in nb], "neighbors_sizes": [int(v) for v in sz],
+                   "mesh.neighbors": [[int(v) for v in r] for r in np.asarray(nb2)],
+                   "mesh.neighbors.sizes": [int(v) for v in nb2.sizes]}
+            keep.extend([nb, sz, np.asarray(nb2), nb2.sizes])
+            return out
+        from autoarray.inversion.pixelization.mappers import mapper_util
+
+        if kind == "tables":
+            subs = np.array(case["sub_size"], dtype=int)
+            idx = L(np.array(case["idx"], dtype=int), "idx")
+            sizes = L(np.array(case["sizes"], dtype=int), "sizes")
+            wts = np.array([[float(F(v)) for v in r] for r in case["wts"]], dtype=float)
+            if case.get("dtype") == "int_array":
+                wts = wts.astype(np.int64)
+            wts = L(wts, "wts")
+            slim_for = K(np.array([i for i, s in enumerate(case["sub_size"]) for _ in range(s * s)], dtype=int))
+            mm = mapper_util.mapping_matrix_from(
+                pix_indexes_for_sub_slim_index=idx, pix_size_for_sub_slim_index=sizes,
+                pix_weights_for_sub_slim_index=wts, pixels=case["pixels"], total_mask_pixels=len(subs),
+                slim_index_for_sub_slim_index=slim_for, sub_fraction=K(1.0 / subs.astype(float) ** 2))
+            d2p, dw, pl = mapper_util.data_slim_to_pixelization_unique_from(
+                data_pixels=len(subs), pix_indexes_for_sub_slim_index=idx,
+                pix_sizes_for_sub_slim_index=sizes, pix_weights_for_sub_slim_index=wts,
+                pix_pixels=case["pixels"], sub_size=K(subs))
+            out = {"mapping_matrix": qmat(mm),
+                   "unique": {"data_to_pix_unique": [[int(v) for v in r] for r in d2p],
+                              "data_weights": qmat(dw), "pix_lengths": [int(v) for v in pl]}}
+            keep.extend([mm, d2p, dw, pl])
+            return out
+        if kind == "bary":
+            dt = case.get("dtype", "float")
+            grid = L(self._np(case["grid"], "int_array" if dt == "int_array" else "float"), "grid")
+            w = mapper_util.pixel_weights_delaunay_from(
+                source_plane_data_grid=grid,
+                source_plane_mesh_grid=L(self._np(case["mesh"], "float" if dt == "float" else "int_array"), "pts"),
+                slim_index_for_sub_slim_index=K(np.zeros(len(grid), dtype=int)),
+                pix_indexes_for_sub_slim_index=L(np.array(case["idx"], dtype=int), "idx"))
+            keep.append(w)
+            return {"weights": qmat(w)}
+        grid = L(self._np(case["grid"], case.get("dtype", "float")), "grid")
+        mp, sz = mapper_util.pix_indexes_for_sub_slim_index_delaunay_from(
+            source_plane_data_grid=grid,
+            simplex_index_for_sub_slim_index=K(-1 * np.ones(len(grid), dtype=int)),
+            pix_indexes_for_simplex_index=K(np.zeros((0, 3), dtype=int)),
+            delaunay_points=L(self._np(case["points"], case.get("dtype", "float")), "pts"))
+        keep.extend([mp, sz])
+        return {"mappings": [[int(v) for v in r] for r in mp], "sizes": [int(v) for v in sz]}
+
+    @staticmethod
+    def _scribble_array(a, how="nan"):
+        """overwrite an array in place (ownership histories, R5-B); read-only / foreign objects are left alone"""
+        try:
+            arr = a if isinstance(a, np.ndarray) else getattr(a, "_array", None)
+            if not isinstance(arr, np.ndarray) or arr.size == 0:
+                return False
+            if arr.dtype == bool:
+                arr[...] = ~arr
+            elif arr.dtype.kind == "f":
+                if how == "nan":
+                    arr[...] = np.nan
+                else:
+                    arr += 1.0
+            elif arr.dtype.kind in "iu":
+                if how == "nan":
+                    arr[...] = 7
+                else:
+                    arr += 1
+            else:
+                return False
+            return True
+        except Exception:
+            return False
+
+    # ---- round 5/6: the same world through other layouts / containers (R5-C) and option combinations (R5-F)
+    @staticmethod
+    def _call(fn, kw, explicit_defaults=False):
+        """fn(**kw); with `explicit_defaults` every optional parameter that was left out is passed with the default
+        value its signature declares (introspected), which must be the same as leaving it out"""
+        if explicit_defaults:
+            import inspect
+
+            for name, p in inspect.signature(fn).parameters.items():
+                if p.kind in (p.VAR_POSITIONAL, p.VAR_KEYWORD) or name in ("self", "cls"):
+                    continue
+                if p.default is not p.empty and name not in kw:
+                    kw[name] = p.default
+        return fn(**kw)
+
+    def _build_mapper_variant(self, aa, case):
+        lay = case.get("lay") or {}
+        opts = case.get("opts") or {}
+        kind = case["kind"]
+        expl = set(opts.get("explicit_defaults") or [])
+        # ---------------- mask
+        m = np.array([c == "1" for c in case["mask"]["bits"]], dtype=bool).reshape(
+            case["mask"]["h"], case["mask"]["w"])
+        scales = tuple(float(F(v)) for v in case["scales"])
+        origin = tuple(float(F(v)) for v in case["origin"])
+        mkw = {"pixel_scales": scales, "origin": origin}
+        if opts.get("mask.pixel_scales") == "scalar":
+            assert scales[0] == scales[1]
+            mkw["pixel_scales"] = scales[0]
+        if opts.get("mask.origin") == "omit":
+            assert origin == (0.0, 0.0)
+            del mkw["origin"]
+        mv = lay.get("mask", "plain")
+        if mv == "invert":  # the complement with invert=True is the same mask
+            mask = self._call(aa.Mask2D, dict(mask=~m, invert=True, **mkw), "mask" in expl)
+        elif mv == "from_mask":  # a Mask2D built from a Mask2D (which carries another geometry)
+            inner = aa.Mask2D(mask=m.copy(), pixel_scales=(scales[1] * 2.0, scales[0] * 0.5),
+                              origin=(origin[0] + 1.5, origin[1] - 2.25))
+            mask = self._call(aa.Mask2D, dict(mask=inner, **mkw), "mask" in expl)
+        elif mv == "int":
+            mask = self._call(aa.Mask2D, dict(mask=m.astype(int), **mkw), "mask" in expl)
+        else:
+            mask = self._call(aa.Mask2D, dict(mask=_lay(m.copy(), mv), **mkw), "mask" in expl)
+        # ---------------- sub-size map and over-sampler
+        subs = case["sub_size"]
+        sv = lay.get("sub", "arr")
+        if sv == "arr":
+            sub = int(subs[0]) if case.get("uniform_int_sub") else aa.Array2D(values=np.array(subs, dtype=int), mask=mask)
+        elif sv == "ndarray":
+            sub = np.array(subs, dtype=int)
+        elif sv == "arr_of_arr":
+            sub = aa.Array2D(values=aa.Array2D(values=np.array(subs, dtype=int), mask=mask), mask=mask)
+        else:
+            sub = aa.Array2D(values=_lay(np.array(subs, dtype=int), sv), mask=mask)
+        if case.get("over") == "sampling":
+            over = self._call(aa.OverSamplingUniform, dict(sub_size=sub), "over" in expl).over_sampler_from(mask=mask)
+        else:
+            over = self._call(aa.OverSamplerUniform, dict(mask=mask, sub_size=sub), "over" in expl)
+        # ---------------- source-plane grid
+        dt = case.get("dtype", "float")
+
+        def container(raw, how):
+            if how == "ndarray":
+                return raw if isinstance(raw, np.ndarray) else np.asarray(raw)
+            if how == "irr_of_irr":
+                return aa.Grid2DIrregular(values=aa.Grid2DIrregular(values=raw))
+            if how == "mesh":
+                return aa.Mesh2DDelaunay(values=raw)
+            if how == "grid2d_nomask":
+                a = np.asarray(raw)
+                return aa.Grid2D.no_mask(values=a.reshape(1, -1, 2), pixel_scales=1.0)
+            if how == "grid2d_slim":  # a uniform-grid structure over the mask (every sub-size is 1), slim input
+                return aa.Grid2D(values=np.asarray(raw, dtype=float), mask=mask)
+            if how == "grid2d_native_in":  # ... built from a native (H, W, 2) array (stored slim by the library)
+                nat = np.zeros(m.shape + (2,))
+                nat[~m] = np.asarray(raw, dtype=float)
+                return aa.Grid2D(values=nat, mask=mask)
+            return aa.Grid2DIrregular(values=raw)
+
+        def make_grid(pairs):
+            raw = self._np(pairs, dt)
+            if lay.get("grid") and isinstance(raw, np.ndarray):
+                raw = _lay(raw, lay["grid"])
+            return container(raw, case.get("grid_container"))
+
+        grid = make_grid(case["grid"])
+        plain_grid = np.array([[float(F(a)), float(F(b))] for a, b in case["grid"]], dtype=float).reshape(-1, 2)
+        n_unmasked = len(subs)
+        # ---------------- optional arguments
+        def rtd_of(name):
+            return {"none": None, "empty": {}, "filled": {"c06_decoy_0": 0.25}}[name]
+
+        rtd_name = case.get("run_time_dict", "none")
+        mgkw = {"mask": mask, "source_plane_data_grid": grid}
+        if rtd_name != "omit":
+            mgkw["run_time_dict"] = rtd_of(rtd_name)
+        v = opts.get("image_plane_mesh_grid", "omit")
+        if v == "none":
+            mgkw["image_plane_mesh_grid"] = None
+        elif v == "grid":
+            mgkw["image_plane_mesh_grid"] = aa.Grid2DIrregular(values=[[0.25, -0.5], [1.0, 0.75], [-0.5, 0.125]])
+        v = opts.get("adapt_data", "omit")
+        if v == "none":
+            mgkw["adapt_data"] = None
+        elif v in ("arr", "zeros"):
+            vals = np.zeros(n_unmasked) if v == "zeros" else np.arange(n_unmasked) * 0.5 + 1.0
+            mgkw["adapt_data"] = aa.Array2D(values=vals, mask=mask)
+        v = opts.get("preloads", "omit")
+        if v == "default":
+            mgkw["preloads"] = aa.Preloads()
+        elif v == "unrelated":
+            mgkw["preloads"] = aa.Preloads(use_w_tilde=False, mapper_list=[], regularization_matrix=np.eye(2),
+                                           log_det_regularization_matrix_term=0.0)
+        elif v in ("relocated_same", "relocated_decoy"):
+            # documented: a preloaded relocated grid is used instead of the grid that is passed in
+            mgkw["preloads"] = aa.Preloads(relocated_grid=grid)
+            if v == "relocated_decoy":
+                shifted = [(F(a) * 2 + 1, F(b) - 3) for a, b in case["grid"]]
+                mgkw["source_plane_data_grid"] = aa.Grid2DIrregular(
+                    values=np.array([[float(a), float(b)] for a, b in shifted], dtype=float).reshape(-1, 2))
+            else:
+                mgkw["source_plane_data_grid"] = make_grid(case["grid"])
+        mkw2 = {"over_sampler": over}
+        reg = opts.get("regularization", "none")
+        mkw2["regularization"] = None if reg == "none" else self.REGS[reg](aa)
+        rn = opts.get("mapper.run_time_dict", rtd_name)
+        if rn != "omit":
+            mkw2["run_time_dict"] = mgkw.get("run_time_dict") if rn == rtd_name else rtd_of(rn)
+        direct = case.get("route") == "direct"
+        br = opts.get("border_relocator", "none")
+        if br == "none":
+            mkw2["border_relocator"] = None
+            if not direct:
+                mgkw["border_relocator"] = None
+        # ---------------- mesh, mapper grids, mapper
+        if kind == "rect":
+            sc = case.get("shape_container", "tuple")
+            h, w = case["h"], case["w"]
+            shp = {"tuple": (h, w), "list": [h, w], "np_ints": (np.int64(h), np.int32(w)), "array": np.array([h, w]),
+                   "floats": (float(h), float(w))}[sc]
+            if direct:
+                okw = {"shape_native": shp if sc != "floats" else (h, w), "grid": grid}
+                if opts.get("buffer", "omit") != "omit":
+                    okw["buffer"] = float(F(opts["buffer"]))
+                mesh_obj = self._call(aa.Mesh2DRectangular.overlay_grid, okw, "overlay" in expl)
+                mgkw.pop("border_relocator", None)
+                mgkw["source_plane_mesh_grid"] = mesh_obj
+                mg = self._call(aa.MapperGrids, mgkw, "mapper_grids" in expl)
+                cls = aa.MapperRectangular if opts.get("mapper_cls") != "factory" else aa.Mapper
+                if cls is not aa.Mapper:
+                    mkw2["border_relocator"] = None  # (a required argument of the mapper classes)
+                mapper = self._call(cls, dict(mapper_grids=mg, **mkw2), "mapper" in expl)
+            else:
+                cfg = aa.mesh.Rectangular(shape=shp)
+                mg = self._call(cfg.mapper_grids_from, mgkw, "mapper_grids_from" in expl)
+                mapper = self._call(aa.Mapper, dict(mapper_grids=mg, **mkw2), "mapper" in expl)
+        else:
+            praw = self._np(case["points"], dt)
+            if lay.get("pts") and isinstance(praw, np.ndarray):
+                praw = _lay(praw, lay["pts"])
+            pts_in = container(praw, lay.get("pts_container", "irr"))
+            if direct:
+                mgkw.pop("border_relocator", None)
+                mgkw["source_plane_mesh_grid"] = aa.Mesh2DDelaunay(values=pts_in)
+                mg = self._call(aa.MapperGrids, mgkw, "mapper_grids" in expl)
+                cls = aa.MapperDelaunay if opts.get("mapper_cls") != "factory" else aa.Mapper
+                if cls is not aa.Mapper:
+                    mkw2["border_relocator"] = None  # (a required argument of the mapper classes)
+                mapper = self._call(cls, dict(mapper_grids=mg, **mkw2), "mapper" in expl)
+            else:
+                mgkw["source_plane_mesh_grid"] = pts_in
+                mg = self._call(aa.mesh.Delaunay().mapper_grids_from, mgkw, "mapper_grids_from" in expl)
+                mapper = self._call(aa.Mapper, dict(mapper_grids=mg, **mkw2), "mapper" in expl)
+        return mapper, over, plain_grid
 
     def _observe(self, kind, mapper, over, grid, order=("psw", "um", "nb", "mm")):
         """the C06 observables of one mapper; `order` = the order in which the (cached) quantities are first read"""
@@ -921,7 +1272,7 @@ class C06(PropertyCheck):
             return [{"op": "c06.nearest_vertex", "points": case["points"], "p": p} for p in case["grid"]]
         if kind == "rect":
             return [{"op": "c06.mapper_rect", "mask": case["mask"], "sub_size": case["sub_size"],
-                     "grid": case["grid"], "h": case["h"], "w": case["w"], "buffer": q(BUFFER),
+                     "grid": case["grid"], "h": case["h"], "w": case["w"], "buffer": q(self._buffer(case)),
                      "geom": obs["geom"]}]
         qh = obs["_qhull"]
         return [{"op": "c06.mapper_delaunay", "mask": case["mask"], "sub_size": case["sub_size"],
@@ -962,19 +1313,28 @@ class C06(PropertyCheck):
             return cmp.diff({"neighbors": impl["mesh.neighbors"], "neighbors_sizes": impl["mesh.neighbors.sizes"]},
                             {"neighbors": model["neighbors"], "neighbors_sizes": model["neighbors_sizes"]},
                             "$mesh")
+        if kind == "tables" and case.get("wscale"):
+            # decades stream: weights scaled by 2^k -- compare relative to the scaled magnitude (exact de-scaling)
+            return cmp.diff(self._descale_tables(impl, case["wscale"]), self._descale_tables(model, case["wscale"]))
         if kind in ("tables", "bary", "nearest"):
             return cmp.diff(impl, model)
         if kind == "rect":
-            # cell decisions taken by float arithmetic within BAND of a boundary are not compared
-            for (fy, fx) in model["pixel_coord"]:
-                for v in (F(fy), F(fx)):
-                    if abs(v - round(v)) <= BAND * max(1, abs(v)):
-                        raise Skip("sub-pixel within 1e-11 of a cell boundary")
-            d = cmp.diff(impl["geom"], model["overlay"], "$geom")
+            # cell decisions taken by float arithmetic within BAND of a boundary (plus the rounding error of the
+            # pixel coordinate itself, which matters for far-from-zero / nearly degenerate worlds) are not compared
+            by, bx = self._px_band(case, impl["geom"])
+            inband = [k for k, (fy, fx) in enumerate(model["pixel_coord"])
+                      if any(abs(v - round(v)) <= BAND * max(1, abs(v)) + b for v, b in ((F(fy), by), (F(fx), bx)))]
+            if inband and not case.get("pb"):
+                raise Skip("sub-pixel within 1e-11 of a cell boundary")
+            d = self._geom_diff(case, impl["geom"], model["overlay"], cmp)
             if d:
                 return d
             if impl["shape_native"] != [case["h"], case["w"]]:
                 return f"mesh shape {impl['shape_native']}"
+            if inband:
+                if not impl["mesh.neighbors_same"]:
+                    return "mapper.neighbors differs from source_plane_mesh_grid.neighbors"
+                return self._partial_diff(case, impl, model, cmp, set(inband))
         else:
             # Qhull's neighbour sets must equal the simplex edge relation (model-side check)
             got = [sorted(r[:s]) for r, s in zip(impl["neighbors"], impl["neighbors_sizes"])]
@@ -982,7 +1342,132 @@ class C06(PropertyCheck):
                 return f"neighbours (as sets) != edge relation of the simplices: {got} vs {model['neighbors_from_simplices']}"
         if not impl["mesh.neighbors_same"]:
             return "mapper.neighbors differs from source_plane_mesh_grid.neighbors"
-        return cmp.diff({k: impl[k] for k in self.MAPPER_KEYS}, {k: model[k] for k in self.MAPPER_KEYS})
+        tol = self._dl_tol(case, impl) if (kind == "delaunay" and case.get("ctol")) else TOL
+        if tol > TOL:
+            # far-from-zero world: the area ratios are ill-conditioned, reals compared at the conditioned tolerance
+            real = ("weights", "mapping_matrix", "unique")
+            d = cmp.diff({k: impl[k] for k in self.MAPPER_KEYS if k not in real},
+                         {k: model[k] for k in self.MAPPER_KEYS if k not in real})
+            if d:
+                return d
+            c2 = Cmp(tol, tol)
+            d = c2.diff({k: impl[k] for k in real}, {k: model[k] for k in real})
+            cmp.exact += c2.exact
+            cmp.tolerant += c2.tolerant
+            return d
+        return self._fdiff(cmp, {k: impl[k] for k in self.MAPPER_KEYS}, {k: model[k] for k in self.MAPPER_KEYS})
+
+    # ---- round 5/6 helpers of compare / oracle
+    @staticmethod
+    def _leaves(x):
+        if isinstance(x, (list, tuple)):
+            return sum(C06._leaves(v) for v in x)
+        if isinstance(x, dict):
+            return sum(C06._leaves(v) for v in x.values())
+        return 1
+
+    def _fdiff(self, cmp, a, b, path="$"):
+        """cmp.diff(a, b) with a fast path: structurally identical observations (same canonical "p/q" strings, same
+        integers) are equal, and are counted as that many exact comparisons"""
+        if isinstance(a, dict) and isinstance(b, dict) and set(a) == set(b):
+            for k in sorted(a):
+                d = self._fdiff(cmp, a[k], b[k], f"{path}.{k}")
+                if d:
+                    return d
+            return None
+        if type(a) is type(b) and isinstance(a, list) and a == b and not self._has_bool(a):
+            cmp.exact += self._leaves(a)
+            return None
+        return cmp.diff(a, b, path)
+
+    @staticmethod
+    def _has_bool(x):
+        if isinstance(x, list):
+            return any(C06._has_bool(v) for v in x[:1])
+        return isinstance(x, bool)
+
+    def _buffer(self, case):
+        b = (case.get("opts") or {}).get("buffer", "omit")
+        return BUFFER if b == "omit" else F(b)
+
+    @staticmethod
+    def _descale_tables(o, k):
+        sc = F(2) ** (-int(k))
+        if "err" in o:
+            return o
+        return {"mapping_matrix": [[q(F(v) * sc) for v in r] for r in o["mapping_matrix"]],
+                "unique": {**o["unique"], "data_weights": [[q(F(v) * sc) for v in r] for r in o["unique"]["data_weights"]]}}
+
+    def _px_band(self, case, geom):
+        """bound (in pixels, per axis) on the rounding error of the pixel coordinate (-y/sy) + (cy + oy/sy) + 0.5
+        evaluated in doubles: a few ulps of |y|/sy and |oy|/sy"""
+        try:
+            sy, sx, oy, ox = (abs(F(geom[k])) for k in ("sy", "sx", "oy", "ox"))
+            if sy == 0 or sx == 0:
+                return F(0), F(0)
+            my = max(abs(F(p[0])) for p in case["grid"]) + oy
+            mx = max(abs(F(p[1])) for p in case["grid"]) + ox
+            return 16 * EPS * (my / sy + case["h"]), 16 * EPS * (mx / sx + case["w"])
+        except Exception:
+            return F(0), F(0)
+
+    def _geom_diff(self, case, g_impl, g_model, cmp):
+        """overlay geometry: relative 1e-9 (not the absolute floor of the generic comparison, which would hide a
+        relative change of a tiny world) plus the rounding error of (max + b) - (min - b) in doubles"""
+        d = cmp.diff(g_impl, g_model, "$geom")
+        if d:
+            return d
+        m = max(max(abs(F(p[0])), abs(F(p[1]))) for p in case["grid"]) + self._buffer(case)
+        for k in ("sy", "sx", "oy", "ox"):
+            a, b = F(g_impl[k]), F(g_model[k])
+            if abs(a - b) > TOL * max(abs(a), abs(b)) + 32 * EPS * m:
+                return (f"$geom.{k}: impl={float(a)!r} model={float(b)!r} (relative difference "
+                        f"{float(abs(a - b) / max(abs(a), abs(b))):.3e})")
+        return None
+
+    def _partial_diff(self, case, impl, model, cmp, bad_sub):
+        """rect case with some sub-pixels inside the band: everything that does not depend on their cells"""
+        bl = blocks(case["sub_size"])
+        bad_pix = {i for i, (a, b) in enumerate(bl) if any(k in bad_sub for k in range(a, b))}
+        keys = ["slim_for_sub_slim", "sub_fraction", "neighbors", "neighbors_sizes"]
+        d = cmp.diff({k: impl[k] for k in keys}, {k: model[k] for k in keys})
+        if d:
+            return d
+        nsub, n = len(model["mappings"]), len(bl)
+        for key in ("mappings", "sizes", "weights"):
+            if len(impl[key]) != nsub:
+                return f"$.{key}: length impl={len(impl[key])} model={nsub}"
+            for k in range(nsub):
+                if k not in bad_sub:
+                    d = cmp.diff(impl[key][k], model[key][k], f"$.{key}[{k}]")
+                    if d:
+                        return d
+        for key, a, b in (("mapping_matrix", impl["mapping_matrix"], model["mapping_matrix"]),
+                          *((f"unique.{u}", impl["unique"][u], model["unique"][u])
+                            for u in ("data_to_pix_unique", "data_weights", "pix_lengths"))):
+            if len(a) != n:
+                return f"$.{key}: length impl={len(a)} model={n}"
+            for i in range(n):
+                if i not in bad_pix:
+                    d = cmp.diff(a[i], b[i], f"$.{key}[{i}]")
+                    if d:
+                        return d
+        return None
+
+    def _dl_tol(self, case, obs):
+        """tolerance on the barycentric weights of a Delaunay case: 1e-9, or -- for worlds far from zero -- the
+        rounding error of the area formula the code uses, x1*y2 + x2*y3 + x3*y1 - x2*y1 - x3*y2 - x1*y3 (six products
+        of magnitude M^2, each rounded), relative to the smallest triangle: <= 44 eps M^2 / (2 area) per weight"""
+        try:
+            pts = [(F(a), F(b)) for a, b in case["points"]]
+            allp = pts + [(F(a), F(b)) for a, b in case["grid"]]
+            M = max(max(abs(p[0]), abs(p[1])) for p in allp)
+            amin = min(abs(orient(*(pts[i] for i in s))) for s in obs["_qhull"]["simplices"])
+            if amin == 0:
+                return TOL
+            return max(TOL, 64 * EPS * M * M / amin)
+        except Exception:
+            return TOL
 
     # ============================================================== oracle
     def oracle(self, case, obs):
@@ -1002,6 +1487,10 @@ class C06(PropertyCheck):
         if kind == "tables":
             subs = case["sub_size"]
             wts = [[F(v) for v in r] for r in case["wts"]]
+            if case.get("wscale"):  # decades stream: judge relative to the scaled magnitude (exact de-scaling)
+                sc = F(2) ** (-int(case["wscale"]))
+                wts = [[v * sc for v in r] for r in wts]
+                obs = self._descale_tables(obs, case["wscale"])
             return self._check_matrix_and_unique(subs, case["idx"], case["sizes"], wts, case["pixels"],
                                                  obs["mapping_matrix"], obs["unique"], rows_sum=False)
         if kind == "bary":
@@ -1039,14 +1528,28 @@ class C06(PropertyCheck):
         wts = [[F(v) for v in r] for r in obs["weights"]]
         if not (len(maps) == len(sizes) == len(wts) == nsub == len(grid)):
             return False, "pix_sub_weights tables do not have one row per sub-pixel"
+        wtol = TOL
         if kind == "rect":
             want_cls = "MapperRectangular"
             h, w = case["h"], case["w"]
             pixels = h * w
             ys, xs = [p[0] for p in grid], [p[1] for p in grid]
-            y_lo, y_hi = min(ys) - BUFFER, max(ys) + BUFFER
-            x_lo, x_hi = min(xs) - BUFFER, max(xs) + BUFFER
+            buf = self._buffer(case)
+            y_lo, y_hi = min(ys) - buf, max(ys) + buf
+            x_lo, x_hi = min(xs) - buf, max(xs) + buf
             sy, sx = (y_hi - y_lo) / h, (x_hi - x_lo) / w
+            # containment slack: 1e-9 of a cell, plus the rounding error a cell decision taken in doubles carries
+            # (a few ulps of the coordinates' magnitude; negligible unless the world is far from zero or the
+            # extent is nearly degenerate)
+            fy = 16 * EPS * (max(abs(y_hi), abs(y_lo)) + (y_hi - y_lo))
+            fx = 16 * EPS * (max(abs(x_hi), abs(x_lo)) + (x_hi - x_lo))
+            if "geom" in obs:
+                for nm, got, want in (("pixel scale y", obs["geom"]["sy"], sy), ("pixel scale x", obs["geom"]["sx"], sx),
+                                      ("origin y", obs["geom"]["oy"], (y_hi + y_lo) / 2),
+                                      ("origin x", obs["geom"]["ox"], (x_hi + x_lo) / 2)):
+                    if abs(F(got) - want) > TOL * abs(want) + 2 * (fy + fx):
+                        return False, (f"overlaid mesh {nm} = {float(F(got))!r}, the grid's extent + buffer "
+                                       f"gives {float(want)!r}")
             for k, (p, row, sz, wr) in enumerate(zip(grid, maps, sizes, wts)):
                 if sz != 1 or len(row) != 1 or wr != [1]:
                     return False, f"sub-pixel {k}: rectangular mapping must be one index with weight 1, got {row} {wr}"
@@ -1056,7 +1559,8 @@ class C06(PropertyCheck):
                 cy, cx = divmod(c, w)
                 top, bot = y_hi - cy * sy, y_hi - (cy + 1) * sy
                 lft, rgt = x_lo + cx * sx, x_lo + (cx + 1) * sx
-                if not (bot - SLACK * sy <= p[0] <= top + SLACK * sy and lft - SLACK * sx <= p[1] <= rgt + SLACK * sx):
+                if not (bot - SLACK * sy - fy <= p[0] <= top + SLACK * sy + fy
+                        and lft - SLACK * sx - fx <= p[1] <= rgt + SLACK * sx + fx):
                     return False, (f"sub-pixel {k} at ({float(p[0])},{float(p[1])}) is not inside cell {c} = "
                                    f"(row {cy}, col {cx}) of the {h}x{w} mesh overlaid on the grid")
             ok, why = self._check_rect_neighbors(h, w, obs["neighbors"], obs["neighbors_sizes"])
@@ -1068,22 +1572,28 @@ class C06(PropertyCheck):
             pixels = len(pts)
             qh = obs["_qhull"]
             simplices = qh["simplices"]
-            # --- Qhull contract
+            if case.get("ctol"):
+                wtol = self._dl_tol(case, obs)
+            # --- Qhull contract (exact; on the point set scaled to integer coordinates, which leaves every sign and
+            #     the area identity unchanged)
+            ipts = int_points(pts)
             simp_sets = set()
             for s in simplices:
-                a, b, c = (pts[i] for i in s)
+                if len(s) != 3 or any(not (0 <= i < pixels) for i in s):
+                    return False, f"Qhull contract: simplex {s} does not name three vertices"
+                a, b, c = (ipts[i] for i in s)
                 o = orient(a, b, c)
                 if o == 0:
                     return False, f"Qhull contract: degenerate simplex {s}"
                 if o < 0:
                     b, c = c, b
-                for i, d in enumerate(pts):
+                for i, d in enumerate(ipts):
                     if i not in s and in_circle(a, b, c, d) > 0:
                         return False, f"Qhull contract: simplex {s} is not Delaunay (vertex {i} inside circumcircle)"
                 simp_sets.add(frozenset(s))
-            hull = convex_hull(pts)
-            hull_area2 = sum(orient(pts[hull[0]], pts[hull[i]], pts[hull[i + 1]]) for i in range(1, len(hull) - 1))
-            if sum(abs(orient(*(pts[i] for i in s))) for s in simplices) != hull_area2:
+            hull = convex_hull(ipts)
+            hull_area2 = sum(orient(ipts[hull[0]], ipts[hull[i]], ipts[hull[i + 1]]) for i in range(1, len(hull) - 1))
+            if sum(abs(orient(*(ipts[i] for i in s))) for s in simplices) != hull_area2:
                 return False, "Qhull contract: simplices do not tile the convex hull"
             adj = [set() for _ in pts]
             for s in simplices:
@@ -1124,10 +1634,10 @@ class C06(PropertyCheck):
                     if frozenset(row) not in simp_sets or len(set(row)) != 3:
                         return False, f"sub-pixel {k}: vertices {row} are not a triangle of the triangulation"
                     lam = bary(pts[row[0]], pts[row[1]], pts[row[2]], p)
-                    if min(lam) < -SLACK:
+                    if min(lam) < -max(SLACK, wtol):
                         return False, (f"sub-pixel {k} at ({float(p[0])},{float(p[1])}) is not in the triangle "
                                        f"{row} it is mapped to (barycentric {[float(v) for v in lam]})")
-                    if any(abs(a - b) > TOL for a, b in zip(wr, lam)):
+                    if any(abs(a - b) > wtol for a, b in zip(wr, lam)):
                         return False, (f"sub-pixel {k}: weights {[float(v) for v in wr]} are not the barycentric "
                                        f"coordinates {[float(v) for v in lam]} w.r.t. vertices {row} (in order)")
                     if fs == -1:
@@ -1149,7 +1659,7 @@ class C06(PropertyCheck):
         if not obs["mesh.neighbors_same"]:
             return False, "mapper.neighbors differs from source_plane_mesh_grid.neighbors"
         return self._check_matrix_and_unique(subs, maps, sizes, wts, pixels, obs["mapping_matrix"],
-                                             obs["unique"], rows_sum=True)
+                                             obs["unique"], rows_sum=True, sum_tol=max(TOL, 4 * wtol) if wtol > TOL else TOL)
 
     def _check_rect_neighbors(self, h, w, nb, sz):
         if len(nb) != h * w or len(sz) != h * w:
@@ -1176,7 +1686,7 @@ class C06(PropertyCheck):
                     return False, f"neighbour relation not symmetric at ({k},{j})"
         return True, ""
 
-    def _check_matrix_and_unique(self, subs, maps, sizes, wts, pixels, mm, uq, rows_sum):
+    def _check_matrix_and_unique(self, subs, maps, sizes, wts, pixels, mm, uq, rows_sum, sum_tol=TOL):
         n = len(subs)
         if len(mm) != n or any(len(r) != pixels for r in mm):
             return False, f"mapping matrix shape != ({n},{pixels})"
@@ -1199,7 +1709,7 @@ class C06(PropertyCheck):
             if rows_sum:
                 if min(row) < 0:
                     return False, f"mapping_matrix row {i} has a negative entry {float(min(row))}"
-                if abs(sum(row) - 1) > TOL:
+                if abs(sum(row) - 1) > sum_tol:
                     return False, f"mapping_matrix row {i} sums to {float(sum(row))}, not 1"
             # sparse encoding
             ln = uq["pix_lengths"][i]
@@ -1249,6 +1759,19 @@ class C06(PropertyCheck):
             return
         if kind not in ("rect", "delaunay"):
             return
+        if case.get("opts"):  # option crossings: towards the smallest failing combination
+            o = case["opts"]
+            for k in o:
+                if k == "explicit_defaults":
+                    for ep in o[k]:
+                        yield {**case, "opts": {**o, k: [e for e in o[k] if e != ep]}}
+                elif len(o) > 1:
+                    yield {**case, "opts": {kk: vv for kk, vv in o.items() if kk != k}}
+            if case.get("run_time_dict") not in (None, "none"):
+                yield {**case, "run_time_dict": "none"}
+        if case.get("lay") and len(case["lay"]) > 1:
+            for k in case["lay"]:
+                yield {**case, "lay": {kk: vv for kk, vv in case["lay"].items() if kk != k}}
         subs = case["sub_size"]
         bl = blocks(subs)
         grid = case["grid"]
@@ -1472,6 +1995,48 @@ class C06(PropertyCheck):
             raise KeyError(obj)
 
     def _run_hist(self, aa, case):
+        with _ConfigGuard() as guard:  # configuration changed by `config` steps is restored, also on exceptions
+            return self._run_hist_inner(aa, case, guard)
+
+    def _scribble(self, mapper, objs, how):
+        """ownership histories (R5-B): overwrite, in place, every array the API returned for this mapper and every
+        array it accepted; returns how many arrays were overwritten"""
+        targets = []
+        d = mapper.__dict__
+        for name in ("pix_sub_weights", "unique_mappings", "mapping_matrix", "pix_indexes_for_sub_slim_index",
+                     "pix_sizes_for_sub_slim_index", "pix_weights_for_sub_slim_index"):
+            if name in d:  # (cached: only what has been handed out already)
+                v = d[name]
+                if name == "pix_sub_weights":
+                    targets += [v.mappings, v.sizes, v.weights]
+                elif name == "unique_mappings":
+                    targets += [v.data_to_pix_unique, v.data_weights, v.pix_lengths]
+                else:
+                    targets.append(v)
+        mesh = mapper.source_plane_mesh_grid
+        md = getattr(mesh, "__dict__", {})
+        if "neighbors" in md:
+            targets += [np.asarray(md["neighbors"]), md["neighbors"].sizes]
+        if "delaunay" in md:
+            try:
+                targets += [md["delaunay"].simplices, md["delaunay"].points]
+            except Exception:
+                pass
+        over = mapper.over_sampler
+        od = getattr(over, "__dict__", {})
+        if "slim_for_sub_slim" in od:
+            targets.append(od["slim_for_sub_slim"])
+        targets += [over.sub_size, mesh, mapper.source_plane_data_grid, mapper.mapper_grids.adapt_data]
+        targets += [objs.get(k) for k in ("grid", "pts", "sub", "adapt", "mask", "mesh")]
+        done, seen = 0, set()
+        for t in targets:
+            if t is None or id(t) in seen:
+                continue
+            seen.add(id(t))
+            done += bool(self._scribble_array(t, how))
+        return done
+
+    def _run_hist_inner(self, aa, case, guard):
         import copy as _copy
 
         worlds = case["worlds"]
@@ -1480,7 +2045,25 @@ class C06(PropertyCheck):
         reads, notes = [], []
         for st in case["steps"]:
             op = st["op"]
-            if op == "build":
+            if op == "config":
+                for name, value in st["set"].items():
+                    if not guard.set(name, value):
+                        notes.append(f"config:{name} not available")
+            elif op == "scribble":
+                mp, w = mappers[st["m"]]
+                notes.append(f"scribble:{self._scribble(mp, objs[w], st.get('how', 'nan'))}")
+            elif op == "touch":
+                # a library call that reads the configuration while a flipped value is in force (its value is not
+                # observed): an Array2D / Grid2D construction and a binning
+                try:
+                    mk = aa.Mask2D(mask=np.array([[False, True], [False, False]]), pixel_scales=1.0)
+                    a2 = aa.Array2D(values=np.array([1.0, 2.0, 3.0]), mask=mk)
+                    aa.Grid2D.from_mask(mask=mk)
+                    aa.OverSamplingUniform(sub_size=1)
+                    notes.append(f"touch:{type(a2).__name__}")
+                except Exception as e:
+                    notes.append(f"touch: {type(e).__name__}")
+            elif op == "build":
                 W = worlds[st["w"]]
                 mappers[st["m"]] = (self._hist_build(aa, W, objs[st["w"]]), st["w"])
             elif op == "share":
@@ -1595,7 +2178,7 @@ class C06(PropertyCheck):
         steps = case["steps"]
         n_reads = sum(1 for s in steps if s["op"] == "read")
         for i, st in enumerate(steps):
-            if st["op"] in ("decoy", "fault") or (st["op"] == "read" and n_reads > 1):
+            if st["op"] in ("decoy", "fault", "config", "touch", "scribble") or (st["op"] == "read" and n_reads > 1):
                 yield {**case, "steps": steps[:i] + steps[i + 1:]}
 
     # ---- history generators
@@ -2078,15 +2661,23 @@ class C06(PropertyCheck):
     # literal, or below the smallest recorded constant, are not visible to size_hints
     def _mid_cases(self, rng, quick):
         seed = rng.randrange(1 << 20)
-        plan = [("subpixels", "rect", dict(n_sub=20011)), ("subpixels", "delaunay", dict(n_sub=9473)),
+        plan = [("subpixels", "rect", dict(n_sub=65551 if quick else 20011)), ("subpixels", "delaunay", dict(n_sub=9473)),
                 ("unmasked", "rect", dict(n_unmasked=4099, sub_mode="ones_sprinkle")),
                 ("vertices", "delaunay", dict(n_unmasked=45, mesh=2311, style="corners")),
                 ("meshpixels", "rect", dict(n_unmasked=45, mesh=(67, 41), style="corners")),
                 ("subpixels", "delaunay", dict(n_sub=601, mesh=41)),
                 ("subpixels", "rect", dict(n_sub=353, mesh=(9, 14))),
-                ("frame", "rect", dict(n_unmasked=120, frame=(37, 131)))]
+                ("frame", "rect", dict(n_unmasked=120, frame=(37, 131))),
+                # round 5/6 (R5-E): beyond 2^15 unmasked pixels / 2^16 sub-pixels (the first entry of this plan) /
+                # 2^16 frame pixels and beyond 46340 vertices (int32 products of two vertex indices) -- one case each,
+                # part of every run; mesh pixels beyond 2^16 in the thorough tier
+                ("vertices", "delaunay", dict(n_unmasked=45, mesh=47017, style="corners")),
+                ("unmasked", "rect", dict(n_unmasked=33001, sub_mode="ones_sprinkle")),
+                ("frame", "delaunay", dict(n_unmasked=200, frame=(263, 257)))]
         if not quick:
-            plan += [("subpixels", "rect", dict(n_sub=70001)), ("unmasked", "delaunay", dict(n_unmasked=9001)),
+            plan += [("subpixels", "rect", dict(n_sub=65551)),
+                     ("meshpixels", "rect", dict(n_unmasked=40, mesh=(257, 263), style="corners")),
+                     ("subpixels", "delaunay", dict(n_sub=66001, mesh=23)),("subpixels", "rect", dict(n_sub=70001)), ("unmasked", "delaunay", dict(n_unmasked=9001)),
                      ("vertices", "delaunay", dict(n_unmasked=60, mesh=40009, style="corners")),
                      ("meshpixels", "rect", dict(n_unmasked=60, mesh=(211, 163), style="corners")),
                      ("frame", "delaunay", dict(n_unmasked=300, frame=(517, 259)))]
@@ -2502,6 +3093,523 @@ class C06(PropertyCheck):
             return False, (f"unique mappings of data pixel {i} encode {float(dense[i, p])!r} for source pixel {p}, the "
                            f"mapping matrix has {float(mm[i, p])!r}")
         return True, ""
+
+    # ============================================================== round 5/6 streams
+    def _r56_cases(self, tier, rng):
+        quick = tier == "quick"
+        for fn in (self._decade_cases, self._layout_cases, self._option_cases, self._family_cases,
+                   self._own_cases, self._config_cases):
+            yield from fn(rng, quick)
+
+    # ---------------------------------------------------------------- R5-A / R5-E: decades, far origins, near-ties
+    @staticmethod
+    def _exact_double(x):
+        try:
+            return F(float(x)) == x
+        except OverflowError:
+            return False
+
+    def _xf(self, pairs, k, t=(0, 0)):
+        """every coordinate v -> v * 2^k + t (exact); None when a result is not a double"""
+        sc = F(2) ** k
+        out = []
+        for a, b in pairs:
+            y, x = F(a) * sc + t[0], F(b) * sc + t[1]
+            if not (self._exact_double(y) and self._exact_double(x)):
+                return None
+            out.append([q(y), q(x)])
+        return out
+
+    @staticmethod
+    def _far_offset(rng, e):
+        return tuple(rng.choice([-1, 1]) * rng.choice([1, 3, 5]) * F(2) ** e for _ in range(2))
+
+    def _dec_delaunay(self, rng, flavour):
+        import scipy.spatial  # (the generator's own triangulation, only used to PLACE points)
+
+        for _ in range(60):
+            style = rng.choice(["distort", "special", "special", "hullhug"]) if flavour != "far" else \
+                rng.choice(["distort", "special"])
+            base = self._delaunay_case(rng, 0, {"no_int": True, "style": style})
+            base["dtype"] = "float"
+            pts = [(F(a), F(b)) for a, b in base["points"]]
+            k, t, extra = 0, (F(0), F(0)), {}
+            if flavour == "world":
+                k = rng.randint(-45, 45)
+            elif flavour == "extreme":  # R5-E: squares / products of coordinates out to 1e+-300 (Qhull: 2^-520..2^250)
+                k = rng.choice([-498, -400, -330, -166, -100, 100, 166, 200])
+            elif flavour == "far":
+                k = rng.randint(-12, 6)
+                simp = scipy.spatial.Delaunay(np.array([[float(a), float(b)] for a, b in pts])).simplices
+                amin = min(abs(orient(*(pts[i] for i in s_))) for s_ in simp)
+                m = rng.randint(5, 12)
+                while m > 2 and 64 * EPS * (5 * F(2) ** m + 16) ** 2 / amin > F(2, 10**8):
+                    m -= 1  # keep the conditioned tolerance of the weights (eps M^2 / area) below 2e-8
+                t = self._far_offset(rng, m + k)
+                extra = {"ctol": True}
+            elif flavour == "near":
+                k = rng.choice([0, 0, rng.randint(-45, 45)])
+                simp = scipy.spatial.Delaunay(np.array([[float(a), float(b)] for a, b in pts])).simplices.tolist()
+                hull = convex_hull(pts)
+                g = []
+                for _p in base["grid"]:
+                    r = rng.random()
+                    eps = F(rng.choice([1, 2, 3]), 1 << rng.randint(21, 40))
+                    a, b, c = (pts[i] for i in rng.sample(rng.choice(simp), 3))
+                    if r < 0.4:  # just inside an edge of a triangle: one tiny barycentric weight
+                        t_ = F(rng.randint(1, 15), 16)
+                        lam = (eps, t_, 1 - t_ - eps)
+                    elif r < 0.6:  # next to a vertex: two tiny weights
+                        lam = (1 - 2 * eps, eps, eps)
+                    elif r < 0.8:  # outside the hull, two hull vertices at nearly the same distance
+                        i = rng.randrange(len(hull))
+                        a, b = pts[hull[i]], pts[hull[(i + 1) % len(hull)]]
+                        d = F(rng.randint(1, 8), 2)
+                        py = (a[0] + b[0]) / 2 + (b[1] - a[1]) * d + (b[0] - a[0]) * eps * rng.choice([-1, 1])
+                        px = (a[1] + b[1]) / 2 - (b[0] - a[0]) * d + (b[1] - a[1]) * eps * rng.choice([-1, 1])
+                        g.append((rnd(py, 48), rnd(px, 48)))
+                        continue
+                    else:
+                        g.append((F(_p[0]), F(_p[1])))
+                        continue
+                    g.append((rnd(sum(l * v[0] for l, v in zip(lam, (a, b, c))), 48),
+                              rnd(sum(l * v[1] for l, v in zip(lam, (a, b, c))), 48)))
+                base["grid"] = [qlist(p) for p in g]
+            grid, points = self._xf(base["grid"], k, t), self._xf(base["points"], k, t)
+            if grid is None or points is None:
+                continue
+            return {**base, **extra, "tag": f"dec_delaunay_{flavour}", "grid": grid, "points": points, "dec": [k, q(t[0]), q(t[1])]}
+        raise _Retry()
+
+    def _dec_rect(self, rng, flavour):
+        for _ in range(60):
+            k, t = 0, (F(0), F(0))
+            if flavour in ("world", "extreme", "far"):
+                force = {"no_int": True}
+                if flavour == "extreme":
+                    force["hw"] = (rng.choice([3, 5]), rng.choice([3, 5]))  # (tiny worlds sit at the centre of the mesh)
+                    k = rng.choice([-498, -400, -330, -166, -100, -64])
+                elif flavour == "world":
+                    k = rng.randint(-45, 14)
+                else:
+                    k = rng.randint(-10, 3)
+                    t = self._far_offset(rng, min(rng.randint(6, 13) + k, 15))
+                    t = tuple(v if abs(v) <= 3 * F(2) ** 15 else v / abs(v) * 3 * F(2) ** 15 for v in t)
+                base = self._rect_case(rng, 0, force)
+                if flavour == "extreme" and (base["h"] % 2 == 0 or base["w"] % 2 == 0):
+                    continue
+            else:
+                m, kind, subs = self._mask_subs(rng)
+                n = sum(s_ * s_ for s_ in subs)
+                if n < 4:
+                    continue
+                h, w = rng.randint(3, 6), rng.randint(3, 6)
+                a = rng.choice([F(1), F(3, 2), F(2), F(3)])
+                y0, x0 = gen.dyadic(rng, -4, 4, 2), gen.dyadic(rng, -4, 4, 2)
+                if flavour == "nearsquare":
+                    # cell sizes in y and x agree to 2^-16..2^-33 (inside isclose / allclose defaults); the interior
+                    # points sit half that relative distance from the TRUE cell boundaries in x
+                    dl = rng.choice([-1, 1]) * F(1, 1 << rng.randint(16, 33))
+                    b = a * (1 + dl)
+                    pts = [(y0, x0), (y0 + h * a, x0 + w * b)]
+                    while len(pts) < n:
+                        ky, kx = rng.randint(0, h - 1), rng.randint(1, w - 1)
+                        e = abs(dl) * kx / 2 * a
+                        x = x0 + kx * b - e if dl > 0 else x0 + kx * b + e
+                        if rng.random() < 0.25:
+                            x = x0 + w * b - abs(dl) * a * rng.choice([1, 2, 4])  # next to the far edge
+                        pts.append((y0 + ky * a + F(rng.randint(1, 15), 16) * a, x))
+                    if rng.random() < 0.5:
+                        pts = [(x, y) for (y, x) in pts]
+                        h, w = w, h
+                    k = rng.randint(-12, 3)
+                elif flavour == "nearline":
+                    # the extent in one direction is 2^-20..2^-40 of the other (nearly degenerate, not degenerate)
+                    tiny = F(1, 1 << rng.randint(20, 40))
+                    pts = [(y0 + tiny * gen.dyadic(rng, 0, 8, 2), gen.dyadic(rng, -6, 6, 6)) for _ in range(n)]
+                    pts[0] = (y0, pts[0][1])
+                    pts[-1] = (y0 + tiny * 8, pts[-1][1])
+                    if len({p[1] for p in pts}) < 2:
+                        continue
+                    if rng.random() < 0.5:
+                        pts = [(x, y) for (y, x) in pts]
+                    k = rng.randint(-10, 6)
+                else:  # nearclump: every point within 2^-18..2^-40 of one place far from zero
+                    tiny = F(1, 1 << rng.randint(18, 40))
+                    c = (gen.dyadic(rng, -64, 64, 2), gen.dyadic(rng, -64, 64, 2))
+                    pts = [(c[0] + tiny * gen.dyadic(rng, -4, 4, 3), c[1] + tiny * gen.dyadic(rng, -4, 4, 3)) for _ in range(n)]
+                    pts[0] = (c[0] - 4 * tiny, c[1] - 4 * tiny)
+                    pts[-1] = (c[0] + 4 * tiny, c[1] + 4 * tiny)
+                    k = rng.randint(-6, 6)
+                order = list(range(n))
+                rng.shuffle(order)
+                pts = [pts[i] for i in order]
+                base = {"kind": "rect", "mask": mask_json(m), "mask_kind": kind, **self._plumbing(rng, False),
+                        "sub_size": subs, "uniform_int_sub": len(set(subs)) == 1 and rng.random() < 0.5,
+                        "scales": qlist(gen.scales_pair(rng)), "origin": qlist(gen.origin_pair(rng)),
+                        "grid": [qlist(p) for p in pts], "h": h, "w": w, "degenerate_extent": False}
+            grid = self._xf(base["grid"], k, t)
+            if grid is None:
+                continue
+            return {**base, "tag": f"dec_rect_{flavour}", "grid": grid, "pb": True, "dec": [k, q(t[0]), q(t[1])]}
+        raise _Retry()
+
+    def _dec_util(self, rng):
+        """the raw util kinds with every real input scaled by 2^k, out to 2^-498 / 2^480 (squares stay finite)"""
+        k = rng.choice([rng.randint(-45, 45), rng.randint(-45, 45), -498, 480])
+        sc = F(2) ** k
+        r = rng.random()
+        if r < 0.4:
+            while True:
+                c = self._table_case(rng)
+                if c.get("dtype") != "int_array":
+                    break
+            return {**c, "tag": "dec_tables", "wscale": k, "wts": [[q(F(v) * sc) for v in row] for row in c["wts"]]}
+        while True:
+            a, b = list(self._bary_cases(rng))
+            c = a if r < 0.7 else b
+            if c.get("dtype", "float") == "float":
+                break
+        c = {**c, "tag": "dec_" + c["kind"], "grid": [[q(F(u) * sc), q(F(v) * sc)] for u, v in c["grid"]]}
+        for key in ("mesh", "points"):
+            if key in c:
+                c[key] = [[q(F(u) * sc), q(F(v) * sc)] for u, v in c[key]]
+        return c
+
+    N_DEC = {"quick": {"delaunay": {"world": 40, "extreme": 12, "far": 24, "near": 40},
+                       "rect": {"world": 40, "extreme": 8, "far": 24, "nearsquare": 28, "nearline": 16, "nearclump": 16},
+                       "util": 50},
+             "thorough": {"delaunay": {"world": 600, "extreme": 120, "far": 360, "near": 500},
+                          "rect": {"world": 600, "extreme": 100, "far": 360, "nearsquare": 400, "nearline": 240,
+                                   "nearclump": 240},
+                          "util": 700}}
+
+    def _decade_cases(self, rng, quick):
+        nd = self.N_DEC["quick" if quick else "thorough"]
+        for mesher, fn in (("delaunay", self._dec_delaunay), ("rect", self._dec_rect)):
+            for flavour, cnt in nd[mesher].items():
+                for _ in range(cnt):
+                    try:
+                        yield fn(rng, flavour)
+                    except _Retry:
+                        continue
+        for _ in range(nd["util"]):
+            yield self._dec_util(rng)
+
+    # ---------------------------------------------------------------- R5-C: layouts / containers
+    GRID_LAYS = ["F", "T", "strided", "revview", "readonly", "list", "tuple_rows"]
+    MASK_LAYS = ["F", "T", "strided", "revview", "readonly", "list", "int", "from_mask", "invert"]
+    SUB_LAYS = ["list", "i32", "strided", "revview", "readonly", "ndarray", "arr_of_arr"]
+
+    def _f32_ok(self, pairs):
+        return all(F(float(np.float32(float(F(v))))) == F(v) for p in pairs for v in p)
+
+    def _layout_one(self, rng, mesher, picks):
+        """an ordinary case (float or integer coordinates) with the ingredients named in `picks` in another layout"""
+        force = None
+        if any(w == "grid_container" and v.startswith("grid2d") for w, v in picks):
+            m_, kind_, subs_ = self._mask_subs(rng)  # a Grid2D over the mask has one row per unmasked pixel
+            force = {"ms": (m_, kind_, [1] * len(subs_)), "no_int": True}
+        base = self._rect_case(rng, 0, force) if mesher == "rect" else self._delaunay_case(rng, 0, force)
+        lay = {}
+        for what, var in picks:
+            if what == "grid":
+                if base["dtype"] == "int_list":
+                    base["dtype"] = "int_array"
+                if var in ("list", "tuple_rows"):
+                    base["grid_container"] = "irregular"
+                lay["grid"] = var
+            elif what == "grid_container":
+                base["grid_container"] = var
+                if var == "ndarray" and base["dtype"] == "int_list":
+                    base["dtype"] = "int_array"
+            elif what == "mask":
+                lay["mask"] = var
+            elif what == "sub":
+                lay["sub"] = var
+                base["uniform_int_sub"] = False
+            elif what == "shape" and mesher == "rect":
+                base["shape_container"] = var
+                if var in ("floats", "array"):
+                    base["route"] = "mesh"
+            elif what == "pts" and mesher == "delaunay":
+                if base["dtype"] == "int_list":
+                    base["dtype"] = "int_array"
+                lay["pts"] = var
+            elif what == "pts_container" and mesher == "delaunay":
+                lay["pts_container"] = var
+                if var in ("nd", "grid2d_nomask") and base["dtype"] == "int_list":
+                    base["dtype"] = "int_array"
+            elif what == "f32" and mesher == "delaunay":
+                if base["dtype"] != "float" or not self._f32_ok(base[{"grid": "grid", "pts": "points"}[var]]):
+                    return None
+                lay[var] = "f32"
+        if lay.get("grid") in ("list", "tuple_rows") and base.get("grid_container") == "ndarray":
+            base["grid_container"] = "irregular"
+        if not lay:
+            lay = {"grid": "C"}
+        name = "+".join(f"{a}:{b}" for a, b in picks)
+        return {**base, "tag": f"lay_{mesher}", "lay": lay, "lay_name": name}
+
+    def _layout_cases(self, rng, quick):
+        single = ([("grid", v) for v in self.GRID_LAYS]
+                  + [("grid_container", v) for v in ("ndarray", "irr_of_irr", "grid2d_slim", "grid2d_native_in")]
+                  + [("mask", v) for v in self.MASK_LAYS] + [("sub", v) for v in self.SUB_LAYS]
+                  + [("shape", v) for v in ("list", "np_ints", "floats", "array")]
+                  + [("pts", v) for v in self.GRID_LAYS]
+                  + [("pts_container", v) for v in ("nd", "mesh", "grid2d_nomask")] + [("f32", "grid"), ("f32", "pts")])
+        for rep in range(1 if quick else 6):
+            for mesher in ("rect", "delaunay"):
+                for pk in single:
+                    if mesher == "rect" and pk[0] in ("pts", "pts_container", "f32"):
+                        continue
+                    if mesher == "delaunay" and pk[0] == "shape":
+                        continue
+                    for _ in range(8):
+                        c = self._layout_one(rng, mesher, [pk])
+                        if c is not None:
+                            yield c
+                            break
+        for _ in range(44 if quick else 900):
+            mesher = rng.choice(["rect", "delaunay"])
+            pk = rng.sample([x for x in single if not (mesher == "rect" and x[0] in ("pts", "pts_container", "f32"))
+                             and not (mesher == "delaunay" and x[0] == "shape")], 2)
+            if pk[0][0] == pk[1][0] or {pk[0][0], pk[1][0]} == {"f32", "pts"} or {pk[0][0], pk[1][0]} == {"f32", "grid"}:
+                continue
+            c = self._layout_one(rng, mesher, pk)
+            if c is not None:
+                yield c
+        # the raw util entry points
+        for _ in range(30 if quick else 500):
+            r = rng.random()
+            if r < 0.45:
+                c = self._table_case(rng)
+                lay = {rng.choice(["idx", "sizes", "wts"]): None}
+                for key in lay:
+                    lay[key] = rng.choice(["F", "T", "strided", "revview", "readonly"] if key != "sizes"
+                                          else ["strided", "revview", "readonly", "i32"])
+                if rng.random() < 0.3:
+                    lay["idx"] = "i32"
+                yield {**c, "tag": "lay_tables", "lay": lay}
+            elif r < 0.85:
+                a, b = list(self._bary_cases(rng))
+                c = a if rng.random() < 0.5 else b
+                lay = {rng.choice(["grid", "pts"] + (["idx"] if c["kind"] == "bary" else [])):
+                       rng.choice(["F", "T", "strided", "revview", "readonly"])}
+                yield {**c, "tag": "lay_" + c["kind"], "lay": lay}
+            else:
+                yield {"tag": "lay_nbr", "kind": "nbr", "h": rng.randint(3, 9), "w": rng.randint(3, 9),
+                       "shape_container": rng.choice(["list", "np_ints", "array"])}
+
+    # ---------------------------------------------------------------- R5-F: option crossings
+    def _option_space(self, mesher, route):
+        """(slot, value) choices that differ from what the ordinary stream passes.  `explicit_defaults` names entry
+        points whose signature is introspected at call time (`_call`): every optional parameter that the case leaves
+        out -- also one this table has never heard of -- is passed with its declared default, which must be the
+        same as leaving it out"""
+        sp = {"image_plane_mesh_grid": ["none", "grid"], "adapt_data": ["none", "arr", "zeros"],
+              "run_time_dict": ["omit", "empty", "filled"], "mapper.run_time_dict": ["omit", "none", "empty", "filled"],
+              "regularization": ["constant", "adaptive"], "mask.origin": ["omit"], "mask.pixel_scales": ["scalar"],
+              "over": ["sampling"], "lay.mask": ["invert", "from_mask"]}
+        if route == "mesh":
+            sp["preloads"] = ["default", "unrelated", "relocated_same", "relocated_decoy"]
+            sp["border_relocator"] = ["omit"]
+            sp["explicit_defaults"] = ["mapper_grids_from", "mapper", "mask", "over"]
+            if mesher == "rect":
+                sp["shape_container"] = ["list", "np_ints", "floats"]
+        else:
+            sp["preloads"] = ["default", "unrelated"]
+            sp["mapper_cls"] = ["factory"]
+            sp["explicit_defaults"] = ["mapper_grids", "mapper", "mask"] + (["overlay"] if mesher == "rect" else [])
+            if mesher == "rect":
+                sp["buffer"] = [q(BUFFER), q(F(1, 1024)), q(F(1, 2)), q(F(2))]
+        return sp
+
+    def _option_case(self, rng, mesher, route, choice):
+        for _ in range(30):
+            base = self._rect_case(rng, 0, {"no_int": True, "style": rng.choice(["distort", "hug", "lattice"])}) \
+                if mesher == "rect" else self._delaunay_case(rng, 0, {"no_int": True})
+            if not (mesher == "rect" and base["degenerate_extent"]):
+                break
+        base.update({"dtype": "float", "route": route, "grid_container": "irregular", "shape_container": "tuple",
+                     "over": "sampler", "run_time_dict": "none"})
+        opts, lay = {}, {}
+        for slot, val in choice:
+            if slot == "run_time_dict":
+                base["run_time_dict"] = val
+            elif slot == "over":
+                base["over"] = val
+            elif slot == "shape_container":
+                base["shape_container"] = val
+            elif slot == "lay.mask":
+                lay["mask"] = val
+            elif slot == "explicit_defaults":
+                opts.setdefault("explicit_defaults", []).append(val)
+            else:
+                opts[slot] = val
+            if slot == "mask.origin":
+                base["origin"] = ["0", "0"]
+            if slot == "mask.pixel_scales":
+                base["scales"] = [base["scales"][0], base["scales"][0]]
+        if not opts:
+            opts = {"border_relocator": "none"}
+        name = " x ".join(f"{a}={b}" for a, b in choice)
+        return {**base, "tag": f"opt_{mesher}_{route}", "opts": opts, **({"lay": lay} if lay else {}), "opt_name": name}
+
+    @staticmethod
+    def _pairwise_cover(rng, params):
+        """a pairwise covering array (greedy): a list of assignments param -> value-or-None (None = left at what the
+        ordinary stream passes) such that every pair of non-default values of two different parameters occurs
+        together in at least one assignment"""
+        names = sorted(params)
+        uncovered = {((a, va), (b, vb)) for i, a in enumerate(names) for b in names[i + 1:]
+                     for va in params[a] for vb in params[b]}
+        out = []
+        while uncovered:
+            order = names[:]
+            rng.shuffle(order)
+            # seed the row with one uncovered pair, then extend greedily
+            (a, va), (b, vb) = rng.choice(sorted(uncovered))
+            row = {a: va, b: vb}
+            for nme in order:
+                if nme in row:
+                    continue
+                best, best_gain = None, 0
+                cands = params[nme][:]
+                rng.shuffle(cands)
+                for v in cands:
+                    gain = sum(1 for o, ov in row.items() if ov is not None and
+                               (((nme, v), (o, ov)) if nme < o else ((o, ov), (nme, v))) in uncovered)
+                    if gain > best_gain:
+                        best, best_gain = v, gain
+                row[nme] = best
+            got = [(k, v) for k, v in sorted(row.items()) if v is not None]
+            for i, x in enumerate(got):
+                for y in got[i + 1:]:
+                    uncovered.discard((x, y))
+            out.append(got)
+        return out
+
+    def _option_cases(self, rng, quick):
+        for mesher in ("rect", "delaunay"):
+            for route in ("mesh", "direct"):
+                sp = self._option_space(mesher, route)
+                # every entry point of `explicit_defaults` is a parameter of its own (on / off)
+                params = {k: v for k, v in sp.items() if k != "explicit_defaults"}
+                for ep in sp["explicit_defaults"]:
+                    params[f"explicit_defaults:{ep}"] = [ep]
+                singles = [(slot, v) for slot, vs in params.items() for v in vs]
+                chosen = [[x] for x in (rng.sample(singles, min(len(singles), 8)) if quick else singles)]
+                for _rep in range(1 if quick else 3):  # every pair of option values together, in every run
+                    chosen += self._pairwise_cover(rng, params)
+                if not quick:
+                    chosen += [[a, b] for i, a in enumerate(singles) for b in singles[i + 1:] if a[0] != b[0]]
+                for ch in chosen:
+                    yield self._option_case(rng, mesher, route, [(k.split(":")[0], v) for k, v in ch])
+
+    # ---------------------------------------------------------------- same-key families (order-of-evaluation stream)
+    def _family_cases(self, rng, quick):
+        """consecutive cases that share every key a careless memo could use -- mask pattern, sub-size map, mesh shape,
+        number of points / vertices -- and differ in the coordinates (and, now and then, only in the mask's geometry)"""
+        for mesher in ("rect", "delaunay"):
+            for _fam in range(1 if quick else 4):
+                ms = self._mask_subs(rng)
+                hw = (rng.choice([3, 5]), rng.choice([3, 5]))
+                pts = self._points(rng)
+                prev = None
+                for j in range(24 if quick else 36):
+                    try:
+                        if mesher == "rect":
+                            c = self._rect_case(rng, 0, {"ms": ms, "hw": hw, "style": "distort", "no_int": True})
+                        else:
+                            while True:
+                                p2 = self._points(rng)
+                                if len(p2) == len(pts):
+                                    break
+                            c = self._delaunay_case(rng, 0, {"ms": ms, "pts": p2 if j % 3 else pts, "no_int": True})
+                    except _Retry:
+                        continue
+                    if prev is not None and j % 4 == 3:  # the previous world with another mask geometry only
+                        c = {**prev, "scales": qlist(gen.scales_pair(rng)), "origin": qlist(gen.origin_pair(rng))}
+                    c["dtype"] = "float"
+                    c["tag"] = f"fam_{mesher}"
+                    prev = c
+                    yield dict(c)
+
+    # ---------------------------------------------------------------- R5-B: ownership histories
+    def _own_cases(self, rng, quick):
+        for _ in range(30 if quick else 400):
+            mesher = rng.choice(["rect", "delaunay"])
+            try:
+                W0 = self._h_world(rng, mesher, force={"style": "distort"} if mesher == "rect" else None, inside=True)
+                flavour = rng.choice(["same", "same", "other_between"])
+                if flavour == "same":
+                    worlds = [W0, dict(W0), dict(W0)]
+                else:
+                    f = {"ms": (mask_from_bits(W0["mask"]), W0["mask_kind"], W0["sub_size"])}
+                    if mesher == "rect":
+                        f.update(style="distort", hw=(W0["h"], W0["w"]))
+                    W1 = self._h_world(rng, mesher, force=f, inside=True)
+                    for key in ("uniform_int_sub", "over", "route", "shape_container", "run_time_dict", "reg"):
+                        if key in W0:
+                            W1[key] = W0[key]
+                    worlds = [W0, W1, dict(W0)]
+            except _Retry:
+                continue
+            how = rng.choice(["nan", "inc"])
+            steps = []
+            for j, name in enumerate("ABC"):
+                steps += [{"op": "build", "m": name, "w": j}, {"op": "read", "m": name, "order": self._order(rng)}]
+                if j < 2:
+                    if rng.random() < 0.3:
+                        steps.append({"op": "decoy", "m": name, "what": rng.choice(
+                            ["mesh_neighbors", "over_sampled_grid", "sub_slim_for_pix_arr", "image_plane_data_grid"])})
+                    steps.append({"op": "scribble", "m": name, "how": how})
+            yield {"tag": f"own_{mesher}", "flavour": flavour, "kind": "hist", "worlds": worlds, "steps": steps}
+        # the raw util entry points: call, overwrite inputs and outputs, call again with fresh equal inputs (3 rounds)
+        for h in range(3, 6 if quick else 9):
+            for w in range(3, 6 if quick else 9):
+                yield {"tag": "own_nbr", "kind": "nbr", "h": h, "w": w, "rounds": 3, "scribble": rng.choice(["nan", "inc"])}
+        for _ in range(20 if quick else 300):
+            r = rng.random()
+            if r < 0.5:
+                c = self._table_case(rng)
+            else:
+                a, b = list(self._bary_cases(rng))
+                c = a if r < 0.75 else b
+            yield {**c, "tag": "own_" + c["kind"], "rounds": 3, "scribble": rng.choice(["nan", "inc"])}
+
+    # ---------------------------------------------------------------- R5-D: configuration histories
+    def _config_cases(self, rng, quick):
+        """the C06 observables do not depend on any configuration value: whatever is flipped, and whenever, every
+        read must still be the model's value for a fresh mapper of that world"""
+        for _ in range(32 if quick else 440):
+            mesher = rng.choice(["rect", "delaunay"])
+            try:
+                W0 = self._h_world(rng, mesher, force={"style": "distort"} if mesher == "rect" else None, inside=True)
+            except _Retry:
+                continue
+            name = rng.choice(["repeats", "repeats", "repeats", "flip_ds9", "nn_max", "remove_centre"])
+            val = rng.choice(CONFIG_FLIPS[name])
+            if name == "repeats" and rng.random() < 0.7:
+                W0["run_time_dict"] = "empty"  # the profiling decorator only reads `repeats` with a run-time dict
+            flavour = rng.choice(["before", "between", "flicker", "reused"])
+            bA, rA = {"op": "build", "m": "A", "w": 0}, {"op": "read", "m": "A", "order": self._order(rng)}
+            bB, rB = {"op": "build", "m": "B", "w": 1}, {"op": "read", "m": "B", "order": self._order(rng)}
+            cfg = {"op": "config", "set": {name: val}}
+            back = {"op": "config", "set": {name: {"repeats": 1, "flip_ds9": False, "nn_max": 300, "remove_centre": False}[name]}}
+            worlds = [W0, dict(W0)]
+            if flavour == "before":
+                steps = [cfg, bA, rA] + ([back, bB, rB] if rng.random() < 0.5 else [])
+            elif flavour == "between":
+                steps = [bA, {"op": "read", "m": "A", "order": self._order(rng)}, cfg, dict(rA), bB, rB]
+            elif flavour == "flicker":
+                steps = [{"op": "config", "set": {"native_only": True}}, {"op": "touch"},
+                         {"op": "config", "set": {"native_only": False}}, cfg, bA, rA, back, bB, rB]
+            else:
+                carry = self._carry(W0, rng.choice([["grid"], []]))
+                steps = [bA, cfg, {"op": "share", "src": 0, "dst": 1, "objs": carry}, bB, rB, rA, back, dict(rB)]
+            yield {"tag": f"cfg_{mesher}", "flavour": f"{flavour}:{name}={val}", "kind": "hist", "worlds": worlds, "steps": steps}
 
     def theorems_for(self, case):
         common_t = ["C06.mappingMatrix_entry", "C06.mappingMatrix_rows_sum_one", "C06.slimForSubSlim_blocks",
